@@ -20,6 +20,14 @@ def make_rows(scn):
     """rows (list of dict) of an input trace, possibly with an extra column and awkward cells"""
     cols = HEADER.split(",") + (["note"] if scn.get("extra_col") else [])
     rows = []
+    pid_of = []
+    for j in range(len(scn["arrivals"])):
+        k = int((scn.get("recur") or {}).get(str(j), j))
+        if k >= j or (pid_of and pid_of[-1] == k):
+            k = j               # (a minimised scenario may have lost the pipeline referred to; never adjacent)
+        pid_of.append(k if k == j else pid_of[k] if k < len(pid_of) else j)
+        if pid_of[-1] != j and pid_of[-2:-1] == [pid_of[-1]]:
+            pid_of[-1] = j
     for j, (a, nops) in enumerate(zip(scn["arrivals"], scn["nops"])):
         if scn.get("sci") and (j % 2 == 0 or len(a.strip("0.-")) == 1):
             # the same number in exponent notation ('5e-05', '1.25e+1', '3E-4'): what float() and csv writers of other
@@ -28,7 +36,8 @@ def make_rows(scn):
             m, _, e = format(Decimal(a).normalize(), "e").partition("e")
             a = "%s%s%s%02d" % (m, "E" if j % 4 == 0 else "e", "-" if int(e) < 0 else "+", abs(int(e)))
         for i in range(nops):
-            r = {"pipeline_id": scn.get("id_prefix", "p") + str(j + 1), "arrival_seconds": a if i == 0 else "",
+            r = {"pipeline_id": scn.get("id_prefix", "p") + str(pid_of[j] + 1),
+                 "arrival_seconds": a if i == 0 else "",
                  "priority": PRIOS[(j + i) % 3] if i == 0 else "", "operator_id": "op%d" % (i + 1),
                  "parents": "op%d" % i if i else "", "baseline_cpu_seconds": ["15", "2.50", "1e1", "7"][(j + i) % 4],
                  "cpu_scaling": LAWS[(j * 3 + i) % 7], "memory_gb": ["", "0", "4.0"][(j + i) % 3],
@@ -136,7 +145,7 @@ def run_snap(scn):
             wt = CSVWorkloadReader(f).get_workload(tps)
             firsts = [(a["arrival_seconds"], b["arrival_seconds"], a["pipeline_id"]) for a, b in zip(rows, r1) if a["arrival_seconds"]]
             last = max(int(frac(s) * tps) for _, s, _ in firsts) + 3
-            if last <= 5000 and all(frac(x[0]) <= frac(y[0]) for x, y in zip(firsts, firsts[1:])):
+            if last <= 5000 and not scn.get("recur") and all(frac(x[0]) <= frac(y[0]) for x, y in zip(firsts, firsts[1:])):
                 got = {}
                 for t in range(last):
                     for p in wt.run_one_tick():
@@ -225,6 +234,43 @@ def run_jitter(scn):
                     order.append(r_["pipeline_id"])
                 g[r_["pipeline_id"]].append(r_)
             return g, order
+        if scn.get("recur"):
+            # a job name that comes back later in the trace is another pipeline (the reader groups adjacent rows):
+            # pipelines are told apart by their rows, matched to the output by content and by the [0, delta] window
+            def runs(rs):
+                out_, cur = [], None
+                for r_ in rs:
+                    if r_["arrival_seconds"].strip() or cur is None:
+                        cur = []
+                        out_.append(cur)
+                    cur.append(r_)
+                return out_
+            gi, go = runs(rows), runs(r1)
+            if len(gi) != len(go):
+                raise Violation("C20.jitter.pipelines", {"in": len(gi), "out": len(go), "ids_recur": True})
+            sig = lambda g_: tuple(tuple((c, r_.get(c)) for c in cols if c != "arrival_seconds") for r_ in g_)
+            dl = frac(repr(float(delta)))
+            left = sorted(gi, key=lambda g_: frac(g_[0]["arrival_seconds"]))
+            prev_o = None
+            for g_ in go:
+                o = frac(g_[0]["arrival_seconds"])
+                if prev_o is not None and o < prev_o:
+                    raise Violation("C20.jitter.not_sorted", {"arrivals_out": [float(prev_o), float(o)]})
+                prev_o = o
+                cand = [x for x in left if sig(x) == sig(g_)]
+                if not cand:
+                    raise Violation("C20.jitter.cell", {"pipeline": g_[0]["pipeline_id"], "why": "no input pipeline has these rows",
+                                                         "ids_recur": True})
+                tol = F(1, 10 ** 12) * max(1, abs(o))
+                ok_ = [x for x in cand if -tol <= o - frac(x[0]["arrival_seconds"]) <= dl + tol]
+                if not ok_:
+                    raise Violation("C20.jitter.bounds", {"pipeline": g_[0]["pipeline_id"], "jittered": float(o), "delta": delta,
+                                                          "candidates": [float(frac(x[0]["arrival_seconds"])) for x in cand][:5]})
+                left.remove(ok_[0])
+            out["probes"] = {"ids_recur": 1, "delta_zero": int(delta == 0)}
+            out["faults"] = {k: v for k, v in out["probes"].items() if v}
+            out["sig"] = digest([delta, seed, scn["arrivals"]])
+            return out
         gin, oin = groups(rows)
         gout, oout = groups(r1)
         if sorted(oin) != sorted(oout):
@@ -436,6 +482,18 @@ def gen_scn(r, family, tier):
     scn = {"kind": family, "tps": tps, "arrivals": arrivals, "nops": [r.choice([1, 1, 2, 4]) for _ in arrivals],
            "extra_col": r.random() < 0.4, "id_prefix": r.choice(["p", "pipe-", "q"]), "via_main": r.random() < 0.3,
            "sci": sci}
+    if r.random() < 0.2 and len(arrivals) >= 3:
+        # a job name that comes back later in the trace (not adjacent): a pipeline of its own
+        recur = {}
+        ids = list(range(len(arrivals)))
+        for j in range(2, len(arrivals)):
+            if r.random() < 0.3:
+                k = ids[r.randrange(0, j - 1)]
+                if k != ids[j - 1]:           # never the id of the pipeline right before it (that would be one pipeline)
+                    ids[j] = k
+                    recur[str(j)] = k
+        if recur:
+            scn["recur"] = recur
     if family == "jitter":
         if r.random() < 0.35:
             # jitter must sort whatever it is given: also feed it traces that are not in arrival order
